@@ -231,3 +231,17 @@ func VerifSimpleSearcher(id uint32, name string, branches ...string) zoekt.Searc
 		{name: "b.go", content: "plain text\n", branches: branches},
 	})
 }
+
+// VerifShardWithSource: a one-file simple shard of repository (id, name) whose Source is source.
+func VerifShardWithSource(id uint32, name, source string) []byte {
+	r := verifRepo(id, name, "main")
+	r.Source = source
+	b, err := NewShardBuilder(r)
+	if err != nil {
+		panic(err)
+	}
+	if err := b.Add(Document{Name: "f.go", Content: []byte("package f\n"), Branches: []string{"main"}, Language: "Go", Category: FileCategoryDefault}); err != nil {
+		panic(err)
+	}
+	return verifWriteShard(b, name).data
+}
